@@ -49,6 +49,10 @@ def gen(rng, tier):
     # written in the formula is the name that is looked up (decided by the oracle; the model reads ASCII)
     for which in ("both-columns", "column-and-extra", "unbound", "callee"):
         cases.append({"role": "unicode-name", "defined": [], "depth": 0, "which": which})
+    # a namespace KEY that spells a whole dotted callee ("tools.f"): a dotted callee is resolved through its head and
+    # attribute access, never through such a key (decided by the oracle; the model's names hold no dots)
+    for which in ("dotkey-head-bound", "dotkey-head-unbound", "dotkey-deep"):
+        cases.append({"role": "unicode-name", "defined": [], "depth": 0, "which": which})
     for steps in ([5.0, 6.0], [5.0, None], [None, 5.0, None], [5.0, 6.0, 7.0, None], [7.0, 7.0, None, 6.0]):
         cases.append({"role": "env-object", "defined": [], "depth": 0, "steps": steps})
     return cases
@@ -122,6 +126,23 @@ def _run_unicode(c):
     y = np.arange(n, dtype=float)
     ident = (lambda v: np.asarray(v, dtype=float))
     w = c["which"]
+    if w.startswith("dotkey"):
+        import types
+        df = pd.DataFrame({"y": y, "x": [1.0, 2.0, 3.0, 4.0]})
+        if w == "dotkey-head-bound":
+            ns = {"tools": types.SimpleNamespace(f=(lambda v: v * 2)), "tools.f": (lambda v: v * 100)}
+            d = design_matrices("y ~ tools.f(x)", df, extra_namespace=ns)
+            return [float(v) for v in np.asarray(d.common["tools.f(x)"]).reshape(-1)]
+        if w == "dotkey-deep":
+            inner = types.SimpleNamespace(f=(lambda v: v * 2))
+            ns = {"tools": types.SimpleNamespace(sub=inner), "tools.sub.f": (lambda v: v * 100), "sub.f": (lambda v: v * 7)}
+            d = design_matrices("y ~ tools.sub.f(x)", df, extra_namespace=ns)
+            return [float(v) for v in np.asarray(d.common["tools.sub.f(x)"]).reshape(-1)]
+        try:
+            design_matrices("y ~ tools.f(x)", df, extra_namespace={"tools.f": (lambda v: v * 100)})
+        except KeyError:
+            return "Key"
+        return "resolved"
     if w == "both-columns":
         df = pd.DataFrame({"y": y, "x\u00b2": [25.0, 36.0, 49.0, 64.0], "x2": [5.0, 6.0, 7.0, 8.0]})
         d = design_matrices("y ~ ident(x\u00b2)", df, extra_namespace={"ident": ident})
@@ -143,7 +164,8 @@ def _run_unicode(c):
 
 
 UNICODE_WANT = {"both-columns": [25.0, 36.0, 49.0, 64.0], "column-and-extra": [10.0, 20.0, 30.0, 40.0], "unbound": "Key",
-                "callee": [2.0, 4.0, 6.0, 8.0]}
+                "callee": [2.0, 4.0, 6.0, 8.0], "dotkey-head-bound": [2.0, 4.0, 6.0, 8.0], "dotkey-deep": [2.0, 4.0, 6.0, 8.0],
+                "dotkey-head-unbound": "Key"}
 
 
 def model_cmd(c):
@@ -331,6 +353,9 @@ def oracle(c):
     if c["role"] == "unicode-name":
         want = UNICODE_WANT[c["which"]]
         if got[0] != "ok" or got[1] != want:
+            if c["which"].startswith("dotkey"):
+                return (f"{c}: a dotted callee resolved to {got[1:]}; resolving its head and taking attributes gives {want} "
+                        f"(a namespace key that spells the dotted text is not a binding of the head)")
             return (f"{c}: the name written in the formula (with a character Unicode normalisation would rewrite) resolved "
                     f"to {got[1:]}, the binding of exactly that name gives {want}")
         return None
